@@ -160,6 +160,42 @@ func TestC52(t *testing.T) {
 			}
 			m.Count("g1_add_inverse", 1)
 		}
+		// receiver aliases an argument (e.ScalarMult(e,k), e.Add(e,q), e.Add(q,e), e.Neg(e)); arguments unchanged
+		{
+			baseEnc := append([]byte(nil), base.Marshal()...)
+			bCopy := new(big.Int).Set(b)
+			X, _ := new(bn256.G1).Unmarshal(baseEnc)
+			X.ScalarMult(X, b)
+			m.Eval()
+			m.Count("aliased_receiver_cases", 1)
+			if !bytes.Equal(X.Marshal(), bnref.Enc1(refQ)) {
+				m.Violation("g1-scalarmult-aliased-receiver-wrong", wit)
+			}
+			if b.Cmp(bCopy) != 0 || !bytes.Equal(base.Marshal(), baseEnc) {
+				m.Violation("g1-scalarmult-modifies-argument", wit)
+			}
+			if !bytes.Equal(bnref.Enc1(refBase), bnref.Enc1(refP)) {
+				pEnc := append([]byte(nil), P.Marshal()...)
+				Y, _ := new(bn256.G1).Unmarshal(baseEnc)
+				Y.Add(Y, P)
+				Z, _ := new(bn256.G1).Unmarshal(baseEnc)
+				Z.Add(P, Z)
+				want := bnref.Enc1(bnref.Add1(refBase, refP))
+				m.Count("aliased_receiver_cases", 2)
+				if !bytes.Equal(Y.Marshal(), want) || !bytes.Equal(Z.Marshal(), want) {
+					m.Violation("g1-add-aliased-receiver-wrong", wit)
+				}
+				if !bytes.Equal(P.Marshal(), pEnc) {
+					m.Violation("g1-add-modifies-argument", wit)
+				}
+			}
+			W, _ := new(bn256.G1).Unmarshal(baseEnc)
+			W.Neg(W)
+			m.Count("aliased_receiver_cases", 1)
+			if !bytes.Equal(W.Marshal(), bnref.Enc1(bnref.Neg1(refBase))) {
+				m.Violation("g1-neg-aliased-receiver-wrong", wit)
+			}
+		}
 		// round trip
 		U, ok := new(bn256.G1).Unmarshal(P.Marshal())
 		if !ok || !bytes.Equal(U.Marshal(), P.Marshal()) {
@@ -212,6 +248,30 @@ func TestC52(t *testing.T) {
 			m.Eval()
 			if !bytes.Equal(S.Marshal(), bnref.Enc2(bnref.Add2(refP, refQ))) {
 				m.Violation("g2-add-wrong", wit)
+			}
+		}
+		{
+			baseEnc := append([]byte(nil), base.Marshal()...)
+			X, _ := new(bn256.G2).Unmarshal(baseEnc)
+			X.ScalarMult(X, b)
+			m.Eval()
+			m.Count("aliased_receiver_cases", 1)
+			if !bytes.Equal(X.Marshal(), bnref.Enc2(refQ)) {
+				m.Violation("g2-scalarmult-aliased-receiver-wrong", wit)
+			}
+			if !bytes.Equal(base.Marshal(), baseEnc) {
+				m.Violation("g2-scalarmult-modifies-argument", wit)
+			}
+			if !bytes.Equal(bnref.Enc2(refBase), bnref.Enc2(refP)) {
+				Y, _ := new(bn256.G2).Unmarshal(baseEnc)
+				Y.Add(Y, P)
+				Z, _ := new(bn256.G2).Unmarshal(baseEnc)
+				Z.Add(P, Z)
+				want := bnref.Enc2(bnref.Add2(refBase, refP))
+				m.Count("aliased_receiver_cases", 2)
+				if !bytes.Equal(Y.Marshal(), want) || !bytes.Equal(Z.Marshal(), want) {
+					m.Violation("g2-add-aliased-receiver-wrong", wit)
+				}
 			}
 		}
 		U, ok := new(bn256.G2).Unmarshal(P.Marshal())
@@ -294,6 +354,32 @@ func TestC52(t *testing.T) {
 		u, ok := new(bn256.GT).Unmarshal(e.Marshal())
 		if !ok || !bytes.Equal(u.Marshal(), e.Marshal()) {
 			m.Violation("gt-marshal-roundtrip", wit)
+		}
+		// receiver aliases an argument in GT
+		{
+			eEnc := append([]byte(nil), e.Marshal()...)
+			x, _ := new(bn256.GT).Unmarshal(eEnc)
+			x.ScalarMult(x, c)
+			abcm := new(big.Int).Mul(ab, c)
+			if !bytes.Equal(x.Marshal(), new(bn256.GT).ScalarMult(e11, abcm.Mod(abcm, bnref.N)).Marshal()) {
+				m.Violation("gt-scalarmult-aliased-receiver-wrong", wit)
+			}
+			y, _ := new(bn256.GT).Unmarshal(eEnc)
+			y.Add(y, ec)
+			z, _ := new(bn256.GT).Unmarshal(eEnc)
+			z.Add(ec, z)
+			if !bytes.Equal(y.Marshal(), sum.Marshal()) || !bytes.Equal(z.Marshal(), sum.Marshal()) {
+				m.Violation("gt-add-aliased-receiver-wrong", wit)
+			}
+			w, _ := new(bn256.GT).Unmarshal(eEnc)
+			w.Neg(w)
+			if !bytes.Equal(w.Marshal(), ng.Marshal()) {
+				m.Violation("gt-neg-aliased-receiver-wrong", wit)
+			}
+			if !bytes.Equal(e.Marshal(), eEnc) {
+				m.Violation("gt-op-modifies-argument", wit)
+			}
+			m.Count("aliased_receiver_cases", 4)
 		}
 		// negative exponent in GT: e^(-k) must be the inverse of e^k
 		k := big.NewInt(int64(1 + r.IntN(1000)))
@@ -518,4 +604,5 @@ func TestC52(t *testing.T) {
 	m.Gate("enc1:x+p", m.N(300, 20000), "G1 encodings with x+p that fit in 32 bytes")
 	m.Gate("enc1:y+p", m.N(300, 20000), "G1 encodings with y+p that fit in 32 bytes")
 	m.Gate("g1_add_inverse", m.N(300, 10000), "P + (-P) observed")
+	m.Gate("aliased_receiver_cases", m.N(1500, 50000), "operations whose receiver is also an argument")
 }
